@@ -48,14 +48,17 @@ def gen_shape(rng, nmin=2, nmax=9, mix=None, pri="small", seq_rate=0.2, flags=Tr
             else:
                 p = rng.randint(-5, 20)
             shape = None
-            if kinds and rng.random() < 0.2:
+            r_shape = rng.random()
+            if kinds and r_shape < 0.2:
                 shape = ["tuple", 2]
+            elif kinds and r_shape < 0.28:
+                shape = ["none"]
             fns[fn] = dict(priority=p, is_sequential=rng.random() < seq_rate, resource=res, shape=shape)
         nd = {"fn": fn, "args": [], "kwargs": {}, "active": None}
         ds = sorted(rng.sample(range(i), rng.randint(0, min(i, max_deps))))
         for j in ds:
             keys = []
-            if spec_shape(fns, nodes[j]) and j not in flagged and rng.random() < 0.6:
+            if (spec_shape(fns, nodes[j]) or [None])[0] == "tuple" and j not in flagged and rng.random() < 0.6:
                 keys = [rng.randrange(2)]
             a = ["n", j, keys]
             r = rng.random()
